@@ -729,6 +729,9 @@ int main(int argc, char **argv)
     };
     std::vector<Pending> timed_out;
     std::vector<char> wd_killed(workers, 0);
+    int wd_kills = 0;
+    const int max_timeouts = 8;
+    bool aborted_early = false;
     while (alive > 0)
     {
         int st;
@@ -799,44 +802,97 @@ int main(int argc, char **argv)
             {
                 wd_killed[w] = true;
                 kill(pids[w], SIGKILL);
+                if (++wd_kills >= max_timeouts && !aborted_early)
+                {
+                    // a whole class of cases does not terminate: stop handing out cases instead of
+                    // waiting case_timeout for each of them; the verdict comes from the re-runs below
+                    aborted_early = true;
+                    G.sh->next_case.store(total);
+                }
             }
         }
         usleep(5000);
     }
-    // re-run timed-out cases alone, once
-    for (auto &t : timed_out)
+    // re-run timed-out cases alone, once (at most two of them, concurrently, on the now idle machine);
+    // only a second expiry is a hang. Timed-out cases that are not re-run stay unaccounted (inconclusive
+    // unless a hang was confirmed).
     {
-        Locate L = locate(t.gidx);
-        pid_t p = 0;
-        int st = 0;
-        int r = run_alone(L.suite, L.local, case_timeout * 2, &p, &st);
-        if (r == 2)
+        size_t nre = timed_out.size() < 2 ? timed_out.size() : 2;
+        struct Re
         {
-            hangs++;
+            pid_t pid;
+            Locate L;
+            bool done;
+            int st;
+            bool expired;
+        };
+        std::vector<Re> res;
+        fflush(nullptr);
+        for (size_t i = 0; i < nre; i++)
+        {
+            Locate L = locate(timed_out[i].gidx);
+            pid_t p = fork();
+            if (p == 0)
+            {
+                g().worker = (int)(MAX_WORKERS - 1 - i);
+                redirect_stderr();
+                run_one(L.suite, L.local);
+                fflush(nullptr);
+                VF_GCOV_DUMP();
+                _exit(0);
+            }
+            res.push_back(Re{p, L, false, 0, false});
+        }
+        uint64_t t0 = now_ns();
+        size_t left = res.size();
+        while (left)
+        {
+            for (auto &r : res)
+            {
+                if (r.done)
+                    continue;
+                if (waitpid(r.pid, &r.st, WNOHANG) == r.pid)
+                {
+                    r.done = true;
+                    left--;
+                }
+                else if ((now_ns() - t0) / 1e9 > case_timeout)
+                {
+                    kill(r.pid, SIGKILL);
+                    waitpid(r.pid, &r.st, 0);
+                    r.done = r.expired = true;
+                    left--;
+                }
+            }
+            usleep(5000);
+        }
+        for (size_t i = 0; i < res.size(); i++)
+        {
+            Re &r = res[i];
+            Slot &sl = G.sh->slots[MAX_WORKERS - 1 - i];
             char key[KEY_LEN], det[DETAIL_LEN];
-            Slot &s = G.sh->slots[MAX_WORKERS - 1];
-            snprintf(key, sizeof key, "hang:%s%s%s", G.suites[L.suite].name, s.cls[0] ? "@" : "", s.cls);
-            snprintf(det, sizeof det, "case exceeded %.0fs in the pool and %.0fs alone; cls=%s", case_timeout,
-                     case_timeout * 2, s.cls);
-            record_failure("hang", L.suite, L.local, key, det);
+            if (r.expired)
+            {
+                hangs++;
+                snprintf(key, sizeof key, "hang:%s%s%s", G.suites[r.L.suite].name, sl.cls[0] ? "@" : "", sl.cls);
+                snprintf(det, sizeof det, "case exceeded %.0fs in the pool and again %.0fs alone (%zu cases timed out in this run%s); cls=%s",
+                         case_timeout, case_timeout, timed_out.size(), aborted_early ? ", run stopped early" : "", sl.cls);
+                record_failure("hang", r.L.suite, r.L.local, key, det);
+            }
+            else if (WIFEXITED(r.st) && WEXITSTATUS(r.st) == 0)
+                timeouts_recovered++;
+            else if (WIFEXITED(r.st) && WEXITSTATUS(r.st) == 77)
+                crashes++; // the harness recorded its own attributed failure and left with 77
+            else
+            {
+                crashes++;
+                std::string log = read_san_log(logdir, r.pid);
+                snprintf(key, sizeof key, "crash:%s%s%s", WIFSIGNALED(r.st) ? strsignal(WTERMSIG(r.st)) : "exit",
+                         sl.cls[0] ? "@" : "", sl.cls);
+                snprintf(det, sizeof det, "pid=%d (after timeout in pool) cls=%s\n%s", (int)r.pid, sl.cls, log.c_str());
+                record_failure("crash", r.L.suite, r.L.local, key, det);
+            }
         }
-        else if (r == 1 && WIFEXITED(st) && WEXITSTATUS(st) == 77)
-        {
-            crashes++; // the harness recorded its own attributed failure and left with 77
-        }
-        else if (r == 1)
-        {
-            crashes++;
-            std::string log = read_san_log(logdir, p);
-            char key[KEY_LEN], det[DETAIL_LEN];
-            Slot &s = G.sh->slots[MAX_WORKERS - 1];
-            snprintf(key, sizeof key, "crash:%s%s%s", WIFSIGNALED(st) ? strsignal(WTERMSIG(st)) : "exit",
-                     s.cls[0] ? "@" : "", s.cls);
-            snprintf(det, sizeof det, "pid=%d (after timeout in pool)\n%s", (int)p, log.c_str());
-            record_failure("crash", L.suite, L.local, key, det);
-        }
-        else
-            timeouts_recovered++;
     }
     double wall = (now_ns() - t_begin) / 1e9;
 
@@ -858,7 +914,7 @@ int main(int argc, char **argv)
             sh->hash_saturated.load());
     fprintf(f, " \"crashes\": %llu,\n \"hangs\": %llu,\n \"timeouts_recovered\": %llu,\n \"hang_is_violation\": %s,\n",
             (unsigned long long)crashes, (unsigned long long)hangs, (unsigned long long)timeouts_recovered,
-            hang_is_violation ? "true" : "false");
+            hang_is_violation ? "true" : "false", aborted_early ? "true" : "false", timed_out.size());
     fprintf(f, " \"suites\": [");
     for (size_t s = 0; s < G.suites.size(); s++)
     {
